@@ -155,10 +155,34 @@ def _parse_result_block(r, body):
         r.status = None
 
 
+_LOCKS = {}
+
+
+def _claim_tdir(base):
+    """Kani build directories are cached per overlay under .cache/kani.  Two processes working on the same property at the same
+    time (e.g. quick and thorough, or a second checkout of the repository) must not share one: the first takes the cached
+    directory under an advisory lock held until it exits, any other gets a private directory that is removed at exit."""
+    if base in _LOCKS:
+        return _LOCKS[base][0]
+    import fcntl, atexit
+    os.makedirs(os.path.dirname(base), exist_ok=True)
+    fd = os.open(base + '.lock', os.O_CREAT | os.O_RDWR, 0o644)
+    try:
+        fcntl.flock(fd, fcntl.LOCK_EX | fcntl.LOCK_NB)
+        d = base
+    except OSError:
+        os.close(fd)
+        fd = None
+        d = f'{base}.p{os.getpid()}'
+        atexit.register(lambda: shutil.rmtree(d, ignore_errors=True))
+    _LOCKS[base] = (d, fd)
+    os.makedirs(d, exist_ok=True)
+    return d
+
+
 def run_kani(ov, pattern, jobs=8, timeout=1500, mem_kb=14_000_000, features=None, unstable=('stubbing',), tname=None, exact=False):
     """Run every harness whose name contains `pattern` in the overlay crate."""
-    tdir = os.path.join(CACHE, 'kani', tname or ov.name)
-    os.makedirs(tdir, exist_ok=True)
+    tdir = _claim_tdir(os.path.join(CACHE, 'kani', tname or ov.name))
     pats = [pattern] if isinstance(pattern, str) else list(pattern)
     cmd = ['cargo', 'kani', '--target-dir', tdir, '-j', str(jobs), '--output-format', 'terse']
     for pt in pats:
@@ -186,8 +210,7 @@ def kani_playback(ov, harness_full, hfile, features=None, tname=None, timeout=90
     """Ask Kani for a concrete counterexample of `harness_full`, inject the generated unit
     test into the overlay harness file and run it natively (dev profile).  Returns
     (reproduced: bool|None, test_source: str, log: str)."""
-    tdir = os.path.join(CACHE, 'kani', (tname or ov.name) + '-pb')
-    os.makedirs(tdir, exist_ok=True)
+    tdir = _claim_tdir(os.path.join(CACHE, 'kani', (tname or ov.name) + '-pb'))
     short = harness_full.split('::')[-1]
     cmd = ['cargo', 'kani', '--target-dir', tdir, '--harness', harness_full, '--exact', '-Z', 'concrete-playback',
            '--concrete-playback=print', '-Z', 'stubbing', '--output-format', 'terse']
